@@ -13,6 +13,8 @@ def lattice(case_lat):
 def species_objs(symbols, kind='Species'):
     from pymatgen.core import Element, Species
 
+    if kind == 'Species-oxi':
+        return [Species(s, {'Li': 1, 'Na': 1, 'S': -2, 'O': -2, 'P': 5, 'Si': 4}.get(s, 0)) for s in symbols]
     if kind == 'Element':
         return [Element(s) for s in symbols]
     if kind == 'mixed':
